@@ -135,11 +135,23 @@ P1, P2, P3 = 1000003, 7919, 104729  # strides coprime to the space sizes
 class Names:
     """Name material of one world for one target evaluable."""
 
-    def __init__(self, rng, predicted, universe):
+    def __init__(self, rng, predicted, universe, kw=None):
         self.rng = rng
+        # external names this scan configuration makes interesting: those an exact external
+        # exclusion removes, and what lies below them
+        pats = [p.rstrip("$") for p in (kw or {}).get("external_exclusions", []) +
+                (kw or {}).get("regex_external_exclusions", []) if "*" not in p]
+        self.ext_hot = [e for e in W.EXTERNALS if any(e == p or e.startswith(p + ".") for p in pats)]
+        self.ext_hot += [p for p in pats if p.isidentifier()]
         self.mods = ([m for m in predicted if not m.endswith("__init__")] or list(predicted)
                      or [m for m in universe if not m.endswith("__init__")] or ["nosuchroot"])
         self.cut = [m for m in universe if m not in predicted and not m.endswith("__init__")]
+
+    def external(self):
+        """The name of an external library (part of the architecture only if externals are
+        included, imported somewhere and not removed by an external exclusion)."""
+        ext = W.pick(self.rng, self.ext_hot if self.ext_hot and self.rng.random() < 0.8 else W.EXTERNALS)
+        return ext if self.rng.random() < 0.6 else ext.split(".")[0]
 
     def known(self):
         return W.pick(self.rng, self.mods)
@@ -174,6 +186,8 @@ class Names:
             r = rng.random()
             if not batch_ok or r < 0.55:
                 v = W.pick(rng, pool)
+                if kind == "are_named" and rng.random() < (0.3 if self.ext_hot else 0.05):
+                    v = self.external()
                 v = self.unknown() if rng.random() < p_unknown else v
                 return [v] if rng.random() < 0.15 else v
             k = rng.randint(2, 3)
@@ -241,7 +255,7 @@ def gen_world(wseed):
     tree = W.gen_tree(rng, "t0")
     cfgs, predicted = {}, {}
     for j in range(rng.randint(2, 4)):
-        cfg, mods = W.gen_cfg(rng, tree, plain=(j == 0))
+        cfg, mods = W.gen_cfg(rng, tree, plain=(j == 0), ext_bias=True)
         cfgs[f"c{j}"] = cfg
         predicted[f"c{j}"] = mods
     cfg_ids = sorted(cfgs)
@@ -304,7 +318,12 @@ class Ctx:
 
     def target(self):
         ev = W.pick(self.rng, sorted(self.evs))
-        return ev, Names(self.rng, self.wd["predicted"][self.evs[ev]], self.wd["universe"])
+        hot = [e for e in sorted(self.evs)
+               if (self.wd["cfgs"][self.evs[e]].get("kw") or {}).get("exclude_external_libraries") is False]
+        if hot and self.rng.random() < 0.25:
+            ev = W.pick(self.rng, hot)  # an architecture that contains external libraries
+        return ev, Names(self.rng, self.wd["predicted"][self.evs[ev]], self.wd["universe"],
+                         self.wd["cfgs"][self.evs[ev]].get("kw"))
 
     def arch(self, prefer_typo=False):
         ids = sorted(self.wd["archs"])
@@ -504,7 +523,8 @@ def chain_reuse(ctx, client):
         built = diagram_chain(ctx, ctx.obj("D", client), W.pick(rng, DIAGRAM_SHAPES), pid=W.pick(rng, good))
         new, calls, ev = built
     obj = new["obj"]
-    names = Names(rng, ctx.wd["predicted"][ctx.evs[ev]], ctx.wd["universe"])
+    names = Names(rng, ctx.wd["predicted"][ctx.evs[ev]], ctx.wd["universe"],
+                  ctx.wd["cfgs"][ctx.evs[ev]].get("kw"))
     ops = [new] + calls + [{"op": "apply", "obj": obj, "ev": ev}]
     for _ in range(rng.randint(1, 2)):
         r = rng.random()
